@@ -586,10 +586,11 @@ def connect_lines(ver, els):
 
 
 def types_for_payload(rng, target):
-    """a list of type names whose sizes sum to `target`"""
+    """a list of type names whose sizes sum to `target` (a third of the time only 1- and 2-byte types: many variables)"""
     out, left = [], target
+    small = rng.random() < 0.34
     while left > 0:
-        cand = [t for t in TYPE_NAMES if TYPE_SIZE[TYPE_IDS[t]] <= left]
+        cand = [t for t in TYPE_NAMES if TYPE_SIZE[TYPE_IDS[t]] <= left and (not small or TYPE_SIZE[TYPE_IDS[t]] <= 2)]
         t = rng.choice(cand)
         out.append(t)
         left -= TYPE_SIZE[TYPE_IDS[t]]
@@ -877,6 +878,8 @@ def gen_cases(ctx):
         cases.append(gen_boundary_case(rng, n, True, rng.choice([0, 250, 65500])))
     for n in (0, 1, 13, 14, 15, 26, 27):
         cases.append(gen_boundary_case(rng, n, False, rng.choice([0, 245])))
+    for _ in range(400 if th else 80):
+        cases.append(gen_boundary_case(rng, rng.randrange(8, 28), rng.random() < 0.85, rng.choice([0, 100, 250, 65500])))
     for _ in range(9000 if th else 1500):
         cases.append(gen_accept_case(rng, v2=rng.random() < 0.85))
     for _ in range(15000 if th else 2500):
